@@ -20,7 +20,7 @@ use events_once::{
     BoxedLocalReceiver, BoxedLocalSender, Disconnected, EmbeddedLocalEvent, IntoValueError, LocalEvent, LocalEventLake, LocalEventPool, PooledLocalReceiver, PooledLocalSender,
     RawLocalEventLake, RawLocalEventPool, RawLocalPooledReceiver, RawLocalPooledSender, RawLocalReceiver, RawLocalSender,
 };
-use p_events_once::{Ledger, Tracked, WakerCallback, WakerEvent, waker};
+use p_events_once::{Ledger, Tracked, WakerCallback, WakerEvent, waker, waker_shared};
 use proptest::prelude::*;
 use serde::{Deserialize, Serialize};
 use vcommon::{Ctx, Failure, Harness, Verdict};
@@ -42,6 +42,9 @@ struct Case {
     storage: u8,
     program: Vec<Act>,
     callbacks: Vec<Act>,
+    /// wakers whose clones share one identity (will_wake true between polls with the same id)
+    #[serde(default)]
+    same_identity: bool,
 }
 
 fn act_strategy(top: bool) -> impl Strategy<Value = Act> {
@@ -57,10 +60,11 @@ fn act_strategy(top: bool) -> impl Strategy<Value = Act> {
 }
 
 fn case_strategy() -> impl Strategy<Value = Case> {
-    (0u8..6, prop::collection::vec(act_strategy(true), 0..7), prop::collection::vec(act_strategy(false), 0..8)).prop_map(|(storage, program, callbacks)| Case {
+    (0u8..6, prop::collection::vec(act_strategy(true), 0..7), prop::collection::vec(act_strategy(false), 0..8), any::<bool>()).prop_map(|(storage, program, callbacks, same_identity)| Case {
         storage,
         program,
         callbacks,
+        same_identity,
     })
 }
 
@@ -136,6 +140,8 @@ struct World<S: Snd, R: Rcv> {
     /// (address, length) of embedded storage, if the harness owns it
     embedded: Cell<Option<(usize, usize)>>,
     self_cb: RefCell<Option<WakerCallback>>,
+    same_identity: bool,
+    roots: RefCell<Vec<Option<std::task::Waker>>>,
 }
 
 thread_local! {
@@ -215,7 +221,19 @@ impl<S: Snd, R: Rcv> World<S, R> {
                         Some(mut r) => {
                             self.receiver_busy.set(true);
                             let cb = self.self_cb.borrow().clone();
-                            let wk = waker(usize::from(w), &self.ledger, false, cb);
+                            let wk = if self.same_identity {
+                                let existing = self.roots.borrow()[usize::from(w) % 3].clone();
+                                match existing {
+                                    Some(r) => r,
+                                    None => {
+                                        let r = waker_shared(usize::from(w), &self.ledger, cb);
+                                        self.roots.borrow_mut()[usize::from(w) % 3] = Some(r.clone());
+                                        r
+                                    }
+                                }
+                            } else {
+                                waker(usize::from(w), &self.ledger, false, cb)
+                            };
                             let mut cx = Context::from_waker(&wk);
                             let res = Pin::new(&mut r).poll(&mut cx);
                             self.receiver_busy.set(false);
@@ -369,6 +387,8 @@ fn execute<S: Snd, R: Rcv>(case: &Case, s: S, r: R, fin: Finish) -> (Log, Arc<Le
         released_now: Cell::new(false),
         embedded: Cell::new(fin.embedded),
         self_cb: RefCell::new(None),
+        same_identity: case.same_identity,
+        roots: RefCell::new(vec![None, None, None]),
     });
     let cb: WakerCallback = Arc::new(|ev, id| {
         let w = WORLD.with(|w| w.borrow().clone());
@@ -387,7 +407,10 @@ fn execute<S: Snd, R: Rcv>(case: &Case, s: S, r: R, fin: Finish) -> (Log, Arc<Le
         world.perform(Act::DropReceiver);
     })
     .err();
+    // the harness's own root handles go last, with callbacks switched off
     WORLD.with(|w| *w.borrow_mut() = None);
+    let roots: Vec<Option<std::task::Waker>> = std::mem::take(&mut *world.roots.borrow_mut());
+    drop(roots);
     *world.self_cb.borrow_mut() = None;
     let unchanged = {
         let l = world.log.borrow();
@@ -578,6 +601,7 @@ fn main() {
                 storage,
                 program: program.clone(),
                 callbacks: cb,
+                same_identity: storage % 2 == 1,
             })
         })
     });
